@@ -79,17 +79,18 @@ type Ev struct {
 }
 
 type rec struct {
-	w     *bufio.Writer
-	enc   *json.Encoder
-	obs   map[string]bool
-	ms    *move.Store
-	n     int
-	t     int
-	max   int
-	tr    bool
-	rng   *rand.Rand
-	root  string
-	plain bool // plain FEN output (no events)
+	sparseRep bool // the repetition count is observed only at every fourth event or so
+	w         *bufio.Writer
+	enc       *json.Encoder
+	obs       map[string]bool
+	ms        *move.Store
+	n         int
+	t         int
+	max       int
+	tr        bool
+	rng       *rand.Rand
+	root      string
+	plain     bool // plain FEN output (no events)
 	// a second board from board.StartPos() that is played on between the operations of the recorded one
 	shadow *board.Board
 }
@@ -132,7 +133,7 @@ func (r *rec) observe(b *board.Board, e *Ev, judged bool) {
 			e.Stale = &v
 		}
 	}
-	if r.obs["rep"] {
+	if r.obs["rep"] && !(r.sparseRep && r.rng.Intn(4) != 0) {
 		v := int(b.Threefold())
 		e.Rep = &v
 	}
@@ -407,11 +408,13 @@ func (r *rec) positions(corpus []string, rawEp bool) {
 	}
 	for !r.full() {
 		if r.obs["status"] && r.rng.Intn(2) == 0 {
-			switch r.rng.Intn(4) {
+			switch r.rng.Intn(5) {
 			case 0:
 				r.load(gen.BlockStress(r.rng))
 			case 1:
 				r.load(gen.EpOnlyMove(r.rng))
+			case 2:
+				r.load(gen.DoublePushBlock(r.rng))
 			default:
 				r.load(gen.BoxedKing(r.rng, r.rng.Intn(2) == 0))
 			}
@@ -689,7 +692,27 @@ func (r *rec) shuffle(corpus []string, plies int) {
 			b = r.load(r.source(corpus, true))
 		}
 		var undoable []move.Move // reverses of recent reversible moves
+		// take-back variant: now and then the last few moves are undone and another line is played (which, with the
+		// bias towards moving pieces back, often transposes into the position just left, at the same ply); the
+		// repetition count is asked for only now and then, not after every operation
+		takeBack := r.rng.Intn(3) == 0
+		r.sparseRep = takeBack
+		type played struct {
+			m  move.Move
+			rv board.Reverse
+		}
+		var stack []played
 		for ply := 0; ply < plies && !r.full(); ply++ {
+			if takeBack && len(stack) >= 2 && r.rng.Intn(6) == 0 {
+				for k := 1 + r.rng.Intn(min(6, len(stack))); k > 0; k-- {
+					top := stack[len(stack)-1]
+					stack = stack[:len(stack)-1]
+					r.undo(b, top.m, top.rv)
+					if len(undoable) > 0 {
+						undoable = undoable[:len(undoable)-1]
+					}
+				}
+			}
 			lm := proj.Playable(b, r.ms)
 			if len(lm) == 0 {
 				break
@@ -697,7 +720,7 @@ func (r *rec) shuffle(corpus []string, plies int) {
 			var m move.Move
 			if ply == 0 && forced != 0 && contains(lm, forced) {
 				undoable = append(undoable, forced)
-				r.make(b, forced, true)
+				stack = append(stack, played{forced, r.make(b, forced, true)})
 				continue
 			}
 			// prefer moving a piece back (oscillation); sometimes detour
@@ -723,8 +746,9 @@ func (r *rec) shuffle(corpus []string, plies int) {
 				}
 			}
 			undoable = append(undoable, m)
-			r.make(b, m, true)
+			stack = append(stack, played{m, r.make(b, m, true)})
 		}
+		r.sparseRep = false
 	}
 }
 
